@@ -1,4 +1,5 @@
 #include "ccl/tools/JSON.h"
+#include <algorithm>
 
 #include "ccl/rslang/RSExpr.h"
 
@@ -386,10 +387,16 @@ namespace lang {
 void to_json(JSON& object, const LexicalTerm& term) {
   object = term.Text();
   object["forms"] = JSON::array();
+  // Note: manual forms are kept in a hash map; the document lists them in the order of their tags
+  std::vector<std::pair<std::string, std::string>> forms{};
   for (const auto& [form, text] : term.GetAllManual()) {
+    forms.emplace_back(form.ToString(), text);
+  }
+  std::sort(begin(forms), end(forms));
+  for (const auto& [tags, text] : forms) {
     object["forms"] += JSON{
       {"text", text},
-      {"tags", form.ToString()}
+      {"tags", tags}
     };
   }
 }
